@@ -30,7 +30,7 @@ def body(run):
     if q:   # seeded sample of the bases in the quick tier
         import random
         rnd = random.Random(run.seed)
-        base = [b for b in base if rnd.random() < 0.2]
+        base = [b for b in base if rnd.random() < 0.1]
     xrows = cc.derive(run, exe, "c02derive", base, run.pick(1, 3))
     run.log("TLC: %d states; %d model rows + %d derived streams" % (run.cov["states"], len(rows), len(xrows)))
     results = run.go_run(exe, ["-mode", "c02"], cases=rows + xrows, timeout=3000)
